@@ -104,7 +104,7 @@ class MapCfg(object):
         raise ValueError(self.kind)
 
 
-def rand_cfg(rng, name='m1', kinds=None, max_npix=768, min_delta=0):
+def rand_cfg(rng, name='m1', kinds=None, max_npix=768, min_delta=0, rec_unsigned=True):
     kinds = kinds or ['int', 'int', 'flt', 'flt', 'bool', 'packed', 'wide', 'rec']
     k = rng.choice(kinds)
     while True:
@@ -133,7 +133,9 @@ def rand_cfg(rng, name='m1', kinds=None, max_npix=768, min_delta=0):
         c = MapCfg(name, 'wide', covord, spord, maxbits=rng.choice([1, 7, 8, 9, 15, 16, 17, 20, 32]))
     elif k == 'rec':
         nf = rng.choice([2, 2, 3, 4])
-        fields = [rng.choice(['f8', 'f4', 'i4', 'i8', 'i2', 'u2']) for _ in range(nf)]
+        # rec_unsigned=False: known finding F43 (unsigned record fields come back signed from FITS tables)
+        fields = [rng.choice(['f8', 'f4', 'i4', 'i8', 'i2', 'u2'] if rec_unsigned else ['f8', 'f4', 'i4', 'i8', 'i2'])
+                  for _ in range(nf)]
         pr = rng.randrange(nf)
         if fields[pr] in FLT_DTYPES:
             sent = rng.choice(['default', 'default', '-9999'])
